@@ -21,7 +21,9 @@ def check(ctx):
     quick = ctx.tier == 'quick'
     ctx.run_engine(build_seq(ctx), ['--outdir', '/verif/out', '--deadline', '40' if quick else '600', '--depth2', '5' if quick else '0'],
                    label='info_seq', timeout=1200)
-    ctx.run_cosched(build_conc(ctx), 2 if quick else 3, deadline=(40 if quick else 500), label='info_conc')
+    # two-thread scripts: bound 2 (quick) / 3 (thorough); three-thread scripts: bound 1 (quick) / 2 (thorough)
+    ctx.run_cosched(build_conc(ctx), 2 if quick else 3, deadline=(60 if quick else 700), label='info_conc',
+                    extra=['--cap3', '1' if quick else '2'])
     return ctx.finish(RULE, ["identifiers are passed to set/get/test_and_set only while they are registered (API contract)",
                              "sequential consistency at instrumented accesses (no weak-memory effects) in the concurrent leg",
                              "when an info without destructor is unregistered, a stored value may survive or be cleared (the statement is silent)"])
@@ -30,5 +32,5 @@ def check(ctx):
 def replay(ctx, path, obj):
     import subprocess
     if obj.get('engine') == 'cosched':
-        return subprocess.call([build_conc(ctx), '--replay', path])
+        return subprocess.call([build_conc(ctx), '--replay', path] + (['--observe'] if obj.get('scenario') == 'unregister_vs_grow' else []))
     return subprocess.call([build_seq(ctx), '--replay', path])
